@@ -173,6 +173,39 @@ func genC16(r *rng.R, tier string, steer bool, idx int) *trace.Trace {
 		return g + "/" + nm
 	}
 	wide := r.Chance(0.1)
+	if r.Chance(0.08) {
+		// rejection storm: one long name in a group, the same request repeated
+		// (each time rejected as a duplicate), then new long names in that group -
+		// whatever a rejected call leaves behind in the group's fixed-size name
+		// storage adds up until a valid create is refused
+		g := "/"
+		if r.Chance(0.5) {
+			g = "/storm"
+			t.Ops = append(t.Ops, trace.Op{Op: "create_group", Path: g})
+			groups = append(groups, g)
+			all = append(all, g)
+		}
+		first := join(g, "storm_"+strings.Repeat("x", r.Range(8, 24)))
+		t.Ops = append(t.Ops, trace.Op{Op: "create_dataset", Path: first, DType: "Int32", Dims: []uint64{2}})
+		dsets = append(dsets, first)
+		all = append(all, first)
+		for k, reps := 0, r.Range(4, 14); k < reps; k++ {
+			d := trace.Op{Op: "create_dataset", Path: first, DType: "Int32", Dims: []uint64{2}, Bad: "dup"}
+			switch r.Intn(3) {
+			case 1:
+				d = trace.Op{Op: "create_group", Path: first, Bad: "dup"}
+			case 2:
+				d = trace.Op{Op: "hard_link", Path: first, Target: first, Bad: "dup"}
+			}
+			t.Ops = append(t.Ops, d)
+		}
+		for k, more := 0, r.Range(1, 4); k < more; k++ {
+			p := join(g, fmt.Sprintf("after%d_", k)+strings.Repeat("y", r.Range(4, 20)))
+			t.Ops = append(t.Ops, trace.Op{Op: "create_dataset", Path: p, DType: "Int32", Dims: []uint64{2}})
+			dsets = append(dsets, p)
+			all = append(all, p)
+		}
+	}
 	for i := 0; i < n; i++ {
 		nameN++
 		parent := rng.Pick(r, groups)
@@ -433,7 +466,67 @@ func execC16(t *trace.Trace, dir string) *harness.RunResult {
 	sort.Strings(ks)
 	res.NonTrivial = failedThenOK && out.Final != nil && out.Final.OpenErr == ""
 	res.Fingerprint = fmt.Sprintf("sb%d|%s", t.Config.SB, strings.Join(ks, ","))
+	c16Transparency(t, dir, out, res)
 	return res
+}
+
+// c16Transparency is the statement's "as if the call had not been made" taken
+// literally: the history is executed a second time without the calls that were
+// built to fail and did fail. Every remaining call must have the same outcome
+// that succeeds there must also succeed here, and when all outcomes agree the two files must hold the same
+// logical content. No capacity constant of the library is mirrored: whether a
+// remaining call may fail for lack of room is decided by the library itself in
+// the second execution.
+func c16Transparency(t *trace.Trace, dir string, out *Outcome, res *harness.RunResult) {
+	if len(out.Violations) > 0 || len(out.Results) < len(t.Ops) || out.Final == nil {
+		return // already reported / incomplete execution: nothing to attribute
+	}
+	t2 := t.Clone()
+	t2.Ops = t2.Ops[:0]
+	var keep []int
+	for i, op := range t.Ops {
+		if op.Bad != "" && out.Results[i].Err != "" && out.Results[i].Panic == "" {
+			continue
+		}
+		keep = append(keep, i)
+		t2.Ops = append(t2.Ops, op)
+	}
+	if len(keep) == len(t.Ops) {
+		return
+	}
+	res.Probes["transparency-rerun"]++
+	out2 := Run(t2, Options{Dir: dir, Property: "C16", NoFinalCheck: true})
+	if len(out2.Results) < len(t2.Ops) || out2.Final == nil {
+		return
+	}
+	for k, i := range keep {
+		a, b := out.Results[i], out2.Results[k]
+		if a.Skipped || b.Skipped || a.Panic != "" || b.Panic != "" {
+			continue
+		}
+		if a.Err == "" && b.Err != "" {
+			// the call worked after the rejected calls and is refused without them
+			// (seen on the pinned tree: a rejected duplicate hard link leaves a
+			// reference-count message of value 1 behind, so that a later link to the
+			// same target no longer needs room in a full header). The statement asks
+			// for normal behaviour of later calls and equal logical content, not for
+			// byte-equal residue, so this direction is only counted; the contents now
+			// differ by that call and are not compared.
+			res.Probes["transparency-residue-helped"]++
+			return
+		}
+		if a.Err != "" && b.Err == "" {
+			op := t.Ops[i]
+			why := a.Err
+			res.Violations = append(res.Violations, trace.Violation{Property: "C16", Oracle: "failed-calls-transparent", Class: op.Op + ":" + ErrClass(why),
+				Detail: fmt.Sprintf("op %d (%s %s) is refused (%q) after the rejected calls but succeeds in the same history without them", i, op.Op, op.Path, a.Err)})
+			return
+		}
+	}
+	if ok, why := out.Final.Equal(out2.Final); !ok {
+		res.Violations = append(res.Violations, trace.Violation{Property: "C16", Oracle: "failed-calls-transparent", Class: "content",
+			Detail: "content after Close differs from the same history without the rejected calls: " + trunc(why)})
+	}
 }
 
 // ---------------------------------------------------------------------------
